@@ -93,7 +93,7 @@ def fixed_cases(tier):
 
 
 def examples(tier):
-    return 2500 if tier == "quick" else 30000
+    return 2500 if tier == "quick" else 45000
 
 
 def wall_budget(tier):
